@@ -5,7 +5,7 @@
    exactly m and k entries (the code reads b_signs from them). *)
 From Coq Require Import List Bool Arith QArith.
 From QE Require Import Base.Num Base.Pivot Base.PivotProofs C04.Model
-     C04.Proofs C04.Proofs2 C04.Proofs3 C04.Proofs4 C04.Proofs5 C04.Proofs6.
+     C04.Proofs C04.Proofs2 C04.Proofs3 C04.Proofs4 C04.Proofs5 C04.Proofs6 C04.Proofs7 C04.ProofsMM1 C04.ProofsMM2.
 Import ListNotations.
 Open Scope Q_scope.
 
@@ -71,28 +71,52 @@ Theorem C04_status0_optimal : forall c m k Aub bub Aeq beq max_iter x lam fn suc
 Proof. exact status0_optimal. Qed.
 Print Assumptions C04_status0_optimal.
 
-(* not proved (decided per case by the correspondence run + exact oracle only) *)
+(* status 2 (tolerances 0, any max_iter): the constraints have no solution (the optimal Phase-1 tableau
+   is a Farkas certificate) *)
+Theorem C04_status2_infeasible : forall c m k Aub bub Aeq beq max_iter x lam fn success ni,
+  linprog_simplex c m k Aub bub Aeq beq max_iter opts0 = (x, lam, fn, success, 2%nat, ni) ->
+  forall x', ~ primal_feasible (length c) m k Aub bub Aeq beq x'.
+Proof. exact status2_infeasible. Qed.
+Print Assumptions C04_status2_infeasible.
+
+(* not proved (decided per case by the correspondence run + exact oracle only): the converses
+   (infeasible => status 2, optimum exists => status 0, i.e. termination of the lexicographic rule below
+   max_iter) and status 3 => unbounded *)
 Definition C04_status_iff_full : Prop :=
   forall c m k Aub bub Aeq beq max_iter x lam fn success status ni,
     length bub = m -> length beq = k ->
     linprog_simplex c m k Aub bub Aeq beq max_iter opts0 = (x, lam, fn, success, status, ni) ->
     let n := length c in
-    (status = 2%nat -> forall x', ~ primal_feasible n m k Aub bub Aeq beq x') /\
+    ((forall x', ~ primal_feasible n m k Aub bub Aeq beq x') -> status = 2%nat \/ status = 1%nat) /\
     (status = 3%nat -> (exists x', primal_feasible n m k Aub bub Aeq beq x') /\
                        forall B, exists x', primal_feasible n m k Aub bub Aeq beq x' /\ B < dotn n c x').
-Definition C04_minmax_certificate_full : Prop :=
-  forall m n A max_iter v x y,
-    (0 < m)%nat -> (0 < n)%nat -> minmax m n A max_iter opts0 = (v, x, y) -> (2 + m + n <= max_iter)%nat ->
-    (forall i, (i < m)%nat -> 0 <= vget x i) /\ sumQ m (vget x) == 1 /\
-    (forall j, (j < n)%nat -> 0 <= vget y j) /\ sumQ n (vget y) == 1 /\
-    (forall j, (j < n)%nat -> v <= sumQ m (fun i => vget x i * get A i j)) /\
-    (forall i, (i < m)%nat -> sumQ n (fun j => get A i j * vget y j) <= v).
+(* minmax (tolerances 0, m x n payoff matrix A, every max_iter): if the solve_tableau call inside minmax ends
+   with status 0 (minmax discards that status) then x, y are probability vectors, every column payoff of x
+   is >= v and every row payoff against y is <= v, hence min_j (x'A)_j = v = max_i (A y)_i *)
+Theorem C04_minmax_certificate : forall m n A max_iter v x y,
+  (0 < m)%nat -> (0 < n)%nat -> wf m n A ->
+  minmax_inner_status m n A max_iter = 0%nat ->
+  minmax m n A max_iter opts0 = (v, x, y) ->
+  (forall i, (i < m)%nat -> 0 <= vget x i) /\ sumQ m (vget x) == 1 /\
+  (forall j, (j < n)%nat -> 0 <= vget y j) /\ sumQ n (vget y) == 1 /\
+  (forall j, (j < n)%nat -> v <= sumQ m (fun i => vget x i * get A i j)) /\
+  (forall i, (i < m)%nat -> sumQ n (fun j => get A i j * vget y j) <= v).
+Proof. exact minmax_certificate. Qed.
+Print Assumptions C04_minmax_certificate.
+
+(* not proved: the inner solve_tableau of minmax reaches status 0 below the iteration cap *)
+Definition C04_minmax_terminates_full : Prop :=
+  forall m n A, (0 < m)%nat -> (0 < n)%nat -> wf m n A ->
+    exists N, forall max_iter, (N <= max_iter)%nat -> minmax_inner_status m n A max_iter = 0%nat.
 
 (* the hypotheses are satisfiable by non-trivial objects: an LP with a negative right-hand side and an
    equality row on which the model ends with status 0 *)
 Example ex_status0_instance :
   linprog_simplex [2; 1] 2 1 [[1; 1]; [-1; 0]] [4; -1] [[1; -1]] [-1] 100 opts0
   = ([3 # 2; 5 # 2], [3 # 2; 0; 1 # 2], 11 # 2, true, 0%nat, 5%nat).
+Proof. vm_compute. reflexivity. Qed.
+Example ex_status2_instance :
+  linprog_simplex [1; 1] 1 0 [[1; 1]] [-1] [] [] 100 opts0 = ([], [], 0, false, 2%nat, 1%nat).
 Proof. vm_compute. reflexivity. Qed.
 Example ex_tab_inv_instance :
   exists T basis, tab_inv 2 7 4 (T0 2 2 0 [[1; 1]; [-1; 0]] [4; -1] [] []) (obj1 2 2 0) T basis /\ rhs_nonneg 2 7 T.
@@ -106,3 +130,7 @@ Proof.
                 eq_refl eq_refl ltac:(vm_compute; reflexivity)) as (_ & Hp & Hd & E1 & E2).
   split; [exact Hp|split; [exact Hd|]]. rewrite E1. exact E2.
 Qed.
+Example ex_minmax_instance :
+  minmax_inner_status 2 3 [[1; -1; 0]; [-1; 1; 2]] 100 = 0%nat /\
+  minmax 2 3 [[1; -1; 0]; [-1; 1; 2]] 100 opts0 = (0, [1 # 2; 1 # 2], [1 # 2; 1 # 2; 0]).
+Proof. vm_compute. split; reflexivity. Qed.
